@@ -14,6 +14,7 @@ import (
 	"fmt"
 	"io"
 	"log"
+	"log/slog"
 	"os"
 	"path"
 	"reflect"
@@ -316,6 +317,7 @@ var hostFuncs = map[string]interface{}{
 	"log.Flags": log.Flags, "log.SetFlags": log.SetFlags, "log.Prefix": log.Prefix, "log.SetPrefix": log.SetPrefix,
 	"log.Output": log.Output, "log.SetOutput": log.SetOutput, "log.Writer": log.Writer,
 	"log.New": log.New, "log.Default": log.Default,
+	"log/slog.Info": slog.Info, "log/slog.Default": slog.Default, "log/slog.NewLogLogger": slog.NewLogLogger, "log/slog.SetDefault": slog.SetDefault,
 	"os.Exit": os.Exit, "os.FindProcess": os.FindProcess, "os.Getpid": os.Getpid, "os.Getwd": os.Getwd,
 	"os.Setenv": os.Setenv, "os.Unsetenv": os.Unsetenv, "os.Clearenv": os.Clearenv, "os.Getenv": os.Getenv,
 	"os.LookupEnv": os.LookupEnv, "os.Environ": os.Environ, "os.ExpandEnv": os.ExpandEnv, "os.Expand": os.Expand,
